@@ -127,7 +127,10 @@ pub fn check(font: &FontRef, man: &Value, axes: &[Axis], out: &mut Out) {
     if let Ok(fvar) = font.fvar() {
         if let Ok(fa) = fvar.axes() {
             for (a, m) in fa.iter().zip(&man_axes) {
-                let want = m["name"].as_str().unwrap_or("");
+                let want = m["label"].as_str().or(m["name"].as_str()).unwrap_or("");
+                if !m["labelnames"].is_null() {
+                    out.stat("c18_axes_with_localized_labels", 1.0);
+                }
                 if get(a.axis_name_id().to_u16()).map(|s| s.as_str()) != Some(want) {
                     out.viol("C18", format!("fvar axis {} is named {:?} but the source calls it '{want}'", a.axis_tag(), get(a.axis_name_id().to_u16())));
                 }
@@ -170,11 +173,22 @@ pub fn check(font: &FontRef, man: &Value, axes: &[Axis], out: &mut Out) {
             for a in sa {
                 let tag = a.axis_tag().to_string();
                 if let Some(m) = man_axes.iter().find(|m| m["tag"].as_str() == Some(tag.as_str())) {
-                    let want = m["name"].as_str().unwrap_or("");
+                    let want = m["label"].as_str().or(m["name"].as_str()).unwrap_or("");
                     if get(a.axis_name_id().to_u16()).map(|s| s.as_str()) != Some(want) {
                         out.viol("C18", format!("STAT axis {tag} is named {:?} but the source calls it '{want}'", get(a.axis_name_id().to_u16())));
                     }
                 }
+            }
+        }
+    }
+    // records the source supplies itself (openTypeNameRecords): counted, and a reference must never land on a source id whose
+    // string is not the one the reference stands for (that is the generic reference check above); survival itself is reported
+    if let Some(list) = man["name_records"].as_array() {
+        for item in list {
+            out.stat("c18_source_records", 1.0);
+            let id = item["id"].as_u64().unwrap_or(0) as u16;
+            if names.get(&id).map(|v| v.iter().any(|s| Some(s.as_str()) == item["string"].as_str())).unwrap_or(false) {
+                out.stat("c18_source_records_kept", 1.0);
             }
         }
     }
